@@ -158,6 +158,37 @@ pub fn drive_c04(seed: u64, thorough: bool, out: &mut dyn Write) -> usize {
             rec(out, id, "chain", &src2, json!({}));
         }
     }
+    // conditional chains: through the else branch (right-nested), through the then branch, through the condition (parenthesised), mixed
+    for n in 1..=16usize {
+        let mut srcs = vec![];
+        srcs.push((0..n).map(|i| format!("c{} ? t{} : ", i, i)).collect::<String>() + "e");
+        srcs.push((0..n).map(|i| format!("c{} ? ", i)).collect::<String>() + "t" + &(0..n).map(|i| format!(" : e{}", i)).collect::<String>());
+        srcs.push("(".repeat(n) + "c" + &(0..n).map(|i| format!(" ? t{} : e{})", i, i)).collect::<String>());
+        srcs.push((0..n).map(|i| format!("c{} || d{} ? t{} + 1 : ", i, i, i)).collect::<String>() + "e && f");
+        srcs.push((0..n).map(|i| if i % 2 == 0 { format!("c{} ? t{} : ", i, i) } else { format!("c{} ? (p{} ? q{} : r{}) : ", i, i, i, i) }).collect::<String>() + "e");
+        for src in srcs {
+            id += 1;
+            rec(out, id, "chain", &src, json!({}));
+        }
+    }
+    // left-associative chains of every binary operator, alone and mixed within one precedence level
+    for ops in [vec!["+"], vec!["-"], vec!["*"], vec!["/"], vec!["%"], vec!["=="], vec!["<"], vec!["in"], vec!["+", "-"], vec!["*", "/", "%"], vec!["==", "!=", "<", "<=", ">", ">=", "in"]] {
+        for n in 2..=10usize {
+            let mut src = "a0".to_string();
+            for i in 1..n {
+                src += &format!(" {} a{}", ops[(i - 1) % ops.len()], i);
+            }
+            id += 1;
+            rec(out, id, "chain", &src, json!({}));
+        }
+    }
+    // postfix chains: selection, indexing, calls
+    for n in 1..=10usize {
+        for src in [format!("a{}", ".b".repeat(n)), format!("a{}", "[0]".repeat(n)), format!("a{}", ".f(x)".repeat(n)), format!("a{}", ".b[i].g()".repeat(n)), format!("f{}", "(x)".repeat(n))] {
+            id += 1;
+            rec(out, id, "chain", &src, json!({}));
+        }
+    }
     for op in ["!", "-"] {
         for n in 1..=6usize {
             for operand in ["a", "1", "(a + b)", "a.b", "f(x)", "a[0]", "1.5", "true", "[1][0]"] {
